@@ -1455,31 +1455,44 @@ pub open spec fn item_key<K: AsRef<str>, V>(all: Seq<(K, V)>, i: int) -> Seq<cha
 pub open spec fn tfi_distinct<K: AsRef<str>, V>(all: Seq<(K, V)>, n: int) -> bool {
     forall|i: int, j: int| 0 <= i < j < n ==> #[trigger] item_key(all, i) != #[trigger] item_key(all, j)
 }
+/// each of the first n items is in the list under its lower-cased key, with its value
+pub open spec fn tfi_present<K: AsRef<str>, V>(all: Seq<(K, V)>, n: int, q: Seq<(QualifierKey, SmallString)>) -> bool
+    where SmallString: From<V>
+{
+    forall|i: int| 0 <= i < n ==> valid_key((#[trigger] all[i]).0.text()) && has_key(q, item_key(all, i))
+            && (<SmallString as vstd::std_specs::convert::FromSpec<V>>::obeys_from_spec() ==>
+                    has_pair(q, item_key(all, i), <SmallString as vstd::std_specs::convert::FromSpec<V>>::from_spec(all[i].1)@))
+}
+/// ... and nothing else is in it
+pub open spec fn tfi_origin<K: AsRef<str>, V>(all: Seq<(K, V)>, n: int, q: Seq<(QualifierKey, SmallString)>) -> bool {
+    forall|p: int| 0 <= p < q.len() ==> exists|i: int| 0 <= i < n && (#[trigger] q[p]).0.0@ == #[trigger] item_key(all, i)
+}
 /// the list holds exactly the first n items: each under its lower-cased key with its value, and nothing else
 pub open spec fn tfi_inv<K: AsRef<str>, V>(all: Seq<(K, V)>, n: int, q: Seq<(QualifierKey, SmallString)>) -> bool
     where SmallString: From<V>
 {
-    wf_seq(q) && q.len() == n
-    && (forall|i: int| 0 <= i < n ==> valid_key((#[trigger] all[i]).0.text()) && has_key(q, item_key(all, i))
-            && (<SmallString as vstd::std_specs::convert::FromSpec<V>>::obeys_from_spec() ==>
-                    has_pair(q, item_key(all, i), <SmallString as vstd::std_specs::convert::FromSpec<V>>::from_spec(all[i].1)@)))
-    && (forall|p: int| 0 <= p < q.len() ==> exists|i: int| 0 <= i < n && (#[trigger] q[p]).0.0@ == #[trigger] item_key(all, i))
+    wf_seq(q) && q.len() == n && tfi_present(all, n, q) && tfi_origin(all, n, q)
 }
 
-pub proof fn lemma_tfi_step<K: AsRef<str>, V>(all: Seq<(K, V)>, n: int, q: Seq<(QualifierKey, SmallString)>, ix: int, kv: (QualifierKey, SmallString))
+pub proof fn lemma_tfi_step_distinct<K: AsRef<str>, V>(all: Seq<(K, V)>, n: int, q: Seq<(QualifierKey, SmallString)>)
     where SmallString: From<V>
-    requires
-        tfi_inv(all, n, q), tfi_distinct(all, n), 0 <= n < all.len(), 0 <= ix <= q.len(),
-        valid_key(all[n].0.text()), kv.0.0@ == item_key(all, n), !has_key(q, item_key(all, n)),
-        wf_seq(q.insert(ix, kv)),
-        <SmallString as vstd::std_specs::convert::FromSpec<V>>::obeys_from_spec() ==> kv.1 == <SmallString as vstd::std_specs::convert::FromSpec<V>>::from_spec(all[n].1),
-    ensures
-        tfi_inv(all, n + 1, q.insert(ix, kv)), tfi_distinct(all, n + 1),
+    requires tfi_present(all, n, q), tfi_distinct(all, n), 0 <= n < all.len(), !has_key(q, item_key(all, n))
+    ensures tfi_distinct(all, n + 1)
 {
-    let w = q.insert(ix, kv);
     assert forall|i: int, j: int| 0 <= i < j < n + 1 implies #[trigger] item_key(all, i) != #[trigger] item_key(all, j) by {
         if j == n { assert(valid_key(all[i].0.text()) && has_key(q, item_key(all, i))); }
     }
+}
+
+pub proof fn lemma_tfi_step_present<K: AsRef<str>, V>(all: Seq<(K, V)>, n: int, q: Seq<(QualifierKey, SmallString)>, ix: int, kv: (QualifierKey, SmallString))
+    where SmallString: From<V>
+    requires
+        tfi_present(all, n, q), 0 <= n < all.len(), 0 <= ix <= q.len(),
+        valid_key(all[n].0.text()), kv.0.0@ == item_key(all, n),
+        <SmallString as vstd::std_specs::convert::FromSpec<V>>::obeys_from_spec() ==> kv.1 == <SmallString as vstd::std_specs::convert::FromSpec<V>>::from_spec(all[n].1),
+    ensures tfi_present(all, n + 1, q.insert(ix, kv))
+{
+    let w = q.insert(ix, kv);
     assert forall|i: int| 0 <= i < n + 1 implies valid_key((#[trigger] all[i]).0.text()) && has_key(w, item_key(all, i))
             && (<SmallString as vstd::std_specs::convert::FromSpec<V>>::obeys_from_spec() ==>
                     has_pair(w, item_key(all, i), <SmallString as vstd::std_specs::convert::FromSpec<V>>::from_spec(all[i].1)@)) by {
@@ -1497,6 +1510,13 @@ pub proof fn lemma_tfi_step<K: AsRef<str>, V>(all: Seq<(K, V)>, n: int, q: Seq<(
             }
         }
     }
+}
+
+pub proof fn lemma_tfi_step_origin<K: AsRef<str>, V>(all: Seq<(K, V)>, n: int, q: Seq<(QualifierKey, SmallString)>, ix: int, kv: (QualifierKey, SmallString))
+    requires tfi_origin(all, n, q), 0 <= n < all.len(), 0 <= ix <= q.len(), kv.0.0@ == item_key(all, n),
+    ensures tfi_origin(all, n + 1, q.insert(ix, kv))
+{
+    let w = q.insert(ix, kv);
     assert forall|p: int| 0 <= p < w.len() implies exists|i: int| 0 <= i < n + 1 && (#[trigger] w[p]).0.0@ == #[trigger] item_key(all, i) by {
         if p == ix { assert(w[p].0.0@ == item_key(all, n)); }
         else if p < ix {
@@ -1509,6 +1529,21 @@ pub proof fn lemma_tfi_step<K: AsRef<str>, V>(all: Seq<(K, V)>, n: int, q: Seq<(
             assert(w[p].0.0@ == item_key(all, i));
         }
     }
+}
+
+pub proof fn lemma_tfi_step<K: AsRef<str>, V>(all: Seq<(K, V)>, n: int, q: Seq<(QualifierKey, SmallString)>, ix: int, kv: (QualifierKey, SmallString))
+    where SmallString: From<V>
+    requires
+        tfi_inv(all, n, q), tfi_distinct(all, n), 0 <= n < all.len(), 0 <= ix <= q.len(),
+        valid_key(all[n].0.text()), kv.0.0@ == item_key(all, n), !has_key(q, item_key(all, n)),
+        wf_seq(q.insert(ix, kv)),
+        <SmallString as vstd::std_specs::convert::FromSpec<V>>::obeys_from_spec() ==> kv.1 == <SmallString as vstd::std_specs::convert::FromSpec<V>>::from_spec(all[n].1),
+    ensures
+        tfi_inv(all, n + 1, q.insert(ix, kv)), tfi_distinct(all, n + 1),
+{
+    lemma_tfi_step_distinct(all, n, q);
+    lemma_tfi_step_present(all, n, q, ix, kv);
+    lemma_tfi_step_origin(all, n, q, ix, kv);
 }
 
 impl Qualifiers {
